@@ -201,6 +201,15 @@ def gen_sentence(rng, style):
     return s
 
 
+def too_big(spec, limit=4_000_000):
+    """Would the padded box this specifier asks for exceed `limit` cells?  (width digits after the
+    optional alignment, height digits after '.' and its optional alignment; absent = 80 / 30)"""
+    m = re.match(r"[<|>]?(\d*)(?:\.[-^_]?(\d*))?", spec)
+    w = int(m.group(1)) if m and m.group(1) else 80
+    h = int(m.group(2)) if m and m.group(2) else 30
+    return max(w, 80) * max(h, 30) > limit
+
+
 def gen_near(rng, s, alphabet):
     """One edit away from s."""
     op = rng.choice(["ins", "del", "sub", "swap"]) if s else "ins"
@@ -429,6 +438,12 @@ def run(ctx):
                     s, kind = gen_near(rng, s, edit_alpha), "near-sentence"
                 else:
                     s, kind = gen_near(rng, gen_near(rng, s, edit_alpha), edit_alpha), "two-edits"
+                if too_big(s):
+                    # a padded render is pad_width x pad_height characters: '9999999.999' would be
+                    # a 10 GB string (the driver was OOM-killed on seed 21) — keep the box moderate
+                    s, kind = gen_sentence(rng, st), "sentence"
+                    if too_big(s):
+                        s = ""
                 triples.append((st, s, term))
                 cat[kind] = cat.get(kind, 0) + 1
         out["histogram"]["cases_by_kind"] = cat
